@@ -193,8 +193,20 @@ func cmdCheck(args []string) {
 	// classify
 	os.MkdirAll(*replays, 0o755)
 	exit := 0
+	// an undischarged obligation is assumed on the rest of its path, which can make the exit cover of the same
+	// function unsatisfiable: such a cover failure is a consequence, not a finding of its own
+	failedFns := map[string]bool{}
+	for _, g := range res.Groups {
+		if len(g.Failed) > 0 && g.Kind != "cover" {
+			failedFns[g.Fn] = true
+		}
+	}
 	for _, g := range res.Groups {
 		if len(g.Failed) == 0 {
+			continue
+		}
+		if g.Kind == "cover" && failedFns[g.Fn] {
+			fmt.Printf("  (exit cover of %s not checked: an obligation of the same function failed and is assumed on the rest of its path)\n", shortKey(g.Fn))
 			continue
 		}
 		matched := false
@@ -232,8 +244,18 @@ func cmdCheck(args []string) {
 			writeJSON(path, map[string]interface{}{"property": *prop, "obligation": "function-under-contract:" + shortKey(f.Key), "status": "rejected", "reason": f.Rejected,
 				"explanation": "a function this property's proof depends on could not be brought under the verifier (construct outside the modelled subset or contract error); the property has lost a carrier"})
 			fmt.Printf("  function %s rejected: %s\n", shortKey(f.Key), f.Rejected)
-			fmt.Printf("VIOLATION property=%s replay=%s no-failing-input-found\n", *prop, path)
-			res.Violations = append(res.Violations, violation{Obligation: "function:" + shortKey(f.Key), Reason: f.Rejected, Replay: path, NoInput: true})
+			// a fixed-scenario replay registered for this function (and property) is still run against the real code
+			noInput := true
+			if ok, d := tryReplay(w, res, &oblGroup{Name: "function:" + shortKey(f.Key)}, nil, nil, *repo, ""); d != nil && strings.HasPrefix(fmt.Sprint(d["driver"]), "template") {
+				writeJSON(path, map[string]interface{}{"property": *prop, "obligation": "function-under-contract:" + shortKey(f.Key), "status": "rejected", "reason": f.Rejected, "replay": d, "reproduced_on_real_code": ok})
+				noInput = !ok
+			}
+			line := fmt.Sprintf("VIOLATION property=%s replay=%s", *prop, path)
+			if noInput {
+				line += " no-failing-input-found"
+			}
+			fmt.Println(line)
+			res.Violations = append(res.Violations, violation{Obligation: "function:" + shortKey(f.Key), Reason: f.Rejected, Replay: path, NoInput: noInput})
 			exit = 1
 		}
 	}
@@ -907,7 +929,7 @@ func (w *World) closeOnlyObligations(p string) []*Obligation {
 	return out
 }
 
-var boundedTests = map[string]string{"C07": "TestC07", "C16": "TestC16", "C17": "TestC17,TestC17Hub"}
+var boundedTests = map[string]string{"C07": "TestC07,TestC07Wire", "C16": "TestC16", "C17": "TestC17,TestC17Hub"}
 
 // properties whose claim is a proof and whose bounded stand-in only covers a clause that is explicitly NOT claimed as proved
 var boundedIsExtra = map[string]bool{"C17": true}
